@@ -909,7 +909,7 @@ func reservedBatch(c *kit.Ctx, r *kit.Rand) {
 	var pods []*corev1.Pod
 	var sps []sPod
 	for k, n := 0, r.Range(2, 4); k < n; k++ {
-		sp := sPod{Name: fmt.Sprintf("p%d", k), CPU: "3"}
+		sp := sPod{Name: fmt.Sprintf("p%d", k), CPU: kit.Pick(r, []string{"3", "3", "3", "500m"})} // a small pod joins an open claim: re-reservation by the same host
 		pod := test.UnschedulablePod(test.PodOptions{ObjectMeta: metav1.ObjectMeta{Name: sp.Name, UID: types.UID("uid-" + sp.Name),
 			CreationTimestamp: metav1.NewTime(time.Unix(1_700_000_000+int64(k%2), 0))},
 			ResourceRequirements: corev1.ResourceRequirements{Requests: corev1.ResourceList{corev1.ResourceCPU: qty(sp.CPU)}}})
